@@ -64,7 +64,7 @@ def run(tier, seed, jobs):
                  ["one session; mailboxes INBOX(2 messages), a, a/b; pack threshold lowered to 3 messages / ratio 0.8 via the class attributes",
                   "restart = orderly shutdown() + real start-up sequence on the same directory",
                   "RENAME onto a formerly used name only requires (name, UIDVALIDITY) pairs to stay unique"],
-                 time_budget=85 if tier == "quick" else 1500)
+                 time_budget=85 if tier == "quick" else 900)
 
 
 def replay(rec):
